@@ -6,12 +6,13 @@
 (*  MC_ZoneFile_rdata   : RDATA layouts (parentheses with line breaks and  *)
 (*                        comments inside, quoted / unquoted / escaped     *)
 (*                        strings, relative / @ names, tabs, CRLF, missing *)
-(*                        final line terminator) over files of <= 2 RRs    *)
+(*                        final line terminator) over files of one RR       *)
 EXTENDS ZonePrinter
 
 Apex == <<"example", "com">>
 Rec(o, c, t, ttl, rd) == [o |-> o, c |-> c, t |-> t, ttl |-> ttl, rd |-> rd]
 
+NoFirst == {}
 AllOpt == {"$ORIGIN-rel", "rdname-at", "rdname-rel-svcb", "str-quoted-in-paren", "str-unquoted-escape",
            "str-unquoted-dollar", "paren-before-type"}
 
@@ -37,6 +38,7 @@ R_Records == {
 R_Origins == {}
 R_TtlDirs == {}
 R_Seps == {" "}
+R_Seps2 == {" ", "\t "}        \* thorough tier
 R_PSeps == {" ", "\n\t", " ; c ) \"\n"}
 R_Comments == {"; x ( \" y"}
 R_Eols == {"\n", "\r\n"}
